@@ -512,11 +512,8 @@ func snapshot(native *native.NativeService, number uint64, hash ecommon.Hash, ta
 		return
 	}
 
-	if lastSeenHeight > 0 {
-		return
-	}
-
-	// try to search enough recent
+	// try to search enough recent (a sighting among the vote headers applied above may be older
+	// than the signer's latest seal, so the recent window is always searched)
 	toSearch := len(snap.Signers) / 2
 	for i := 0; i < toSearch; i++ {
 		headerWS, err = getHeader(native, startHash, ctx.ChainID)
